@@ -80,10 +80,15 @@ fn parse_one(src: &str, b: &[u8], pos: &mut usize) -> Option<Sexp> {
     }
 }
 
-/// Best-effort extraction of the case id from a line that failed to parse: `( <digits> ...`.
+/// Best-effort extraction of the case id from a line that failed to parse: `( <digits> ...`, `(H <digits> ...`.
 pub fn salvage_id(line: &str) -> Option<u64> {
     let t = line.trim_start();
     let t = t.strip_prefix('(')?.trim_start();
+    // history / thread lines: `(H <id> ...`, `(T <id> ...`
+    let t = match t.strip_prefix("H ").or_else(|| t.strip_prefix("T ")) {
+        Some(rest) => rest.trim_start(),
+        None => t,
+    };
     let end = t.find(|c: char| !c.is_ascii_digit()).unwrap_or(t.len());
     if end == 0 {
         return None;
